@@ -455,10 +455,37 @@ Inductive lowres := LArray (shape_ok dtype_ok : bool) | LRaise (e : exn).
 
 Inductive chunkval := Stored | DefaultFill | Placeholder.
 
+(* the test after decoding, `if chunk.shape != shape or chunk.dtype != dtype: raise BadChunk(...)`, as found in the
+   get_chunk of each concrete store (c08_decoded_checks: class -> (attributes compared, class raised)); the abstract
+   base store has no get_chunk of its own and stands for "any conforming store" (both compared, BadChunk) *)
+Definition mem_str (x : string) (l : list string) : bool := existsb (String.eqb x) l.
+Definition store_class (s : store) : option string :=
+  match s with
+  | SNpy => Some "NpyFileChunkStore"%string
+  | SDict => Some "DictChunkStore"%string
+  | SS3 => Some "S3ChunkStore"%string
+  | SDefault => None
+  end.
+Definition decoded_check (s : store) : bool * bool * exn :=      (* shape compared, dtype compared, raised *)
+  match store_class s with
+  | None => (true, true, K_BadChunk)
+  | Some c =>
+    match find (fun r => String.eqb (fst r) c) c08_decoded_checks with
+    | Some (_, (attrs, raised)) =>
+        (mem_str "shape" attrs, mem_str "dtype" attrs,
+         match exn_of_name raised with Some e => e | None => B_BaseException end)
+    | None => (false, false, K_BadChunk)
+    end
+  end.
+Definition check_decoded (s : store) (shape_ok dtype_ok : bool) : option exn :=
+  let '(cs, cd, ex) := decoded_check s in
+  if (cs && negb shape_ok) || (cd && negb dtype_ok) then Some ex else None.
+
 Definition get_chunk (s : store) (lo : lowres) : outcome chunkval :=
   match lo with
   | LRaise e => Raise (standard_errors (error_map s) e)
-  | LArray shape_ok dtype_ok => if negb shape_ok || negb dtype_ok then Raise K_BadChunk else Ret Stored
+  | LArray shape_ok dtype_ok =>
+      match check_decoded s shape_ok dtype_ok with Some ex => Raise ex | None => Ret Stored end
   end.
 
 Definition caught (l : list exn) (e : exn) : bool := existsb (isinst e) l.
@@ -499,7 +526,7 @@ Section Reads.
       | Err e => Raise (standard_errors (error_map SNpy) (exn_of_npyerr e))
       | Ok (m, body) =>
         let (sok, dok) := hdr_matches want m in
-        if negb sok || negb dok then Raise K_BadChunk else Ret body
+        match check_decoded SNpy sok dok with Some ex => Raise ex | None => Ret body end
       end
     end.
   (* S3ChunkStore.get_chunk when every attempt receives the object bytes [bs] (status 200) *)
@@ -508,7 +535,7 @@ Section Reads.
     | Err e => Raise (standard_errors (error_map SS3) (exn_of_npyerr e))
     | Ok (m, body) =>
       let (sok, dok) := hdr_matches want m in
-      if negb sok || negb dok then Raise K_BadChunk else Ret body
+      match check_decoded SS3 sok dok with Some ex => Raise ex | None => Ret body end
     end.
 End Reads.
 
@@ -523,11 +550,69 @@ Definition lowres_of_decode (r : res (hdr * bytes)) (want : hdr) : lowres :=
 (* one cell of the data set: the chunk of each array covering it.  flags uses get_chunk_or_default(DATA_LOST),
    the others get_chunk_or_placeholder; any exception makes the dask compute (the load) fail. *)
 Inductive akind := AFlags | AOther.
-Definition vfw_getter (k : akind) : store -> lowres -> outcome chunkval :=
-  match k with
-  | AFlags => if String.eqb (fst c08_vfw_errors) "DATA_LOST" then get_chunk_or_default else get_chunk
-  | AOther => if String.eqb (snd c08_vfw_errors) "placeholder" then get_chunk_or_placeholder else get_chunk
+(* ChunkStore.get_dask_array(..., errors=...): the if / elif chain that picks the getter and its keyword arguments,
+   interpreted over the translated rows (c08_getter_selection: (test, getter), c08_getter_kwargs: (key, expression));
+   a test or expression this model does not know makes the selection GUnknown (and the theorems below fail). *)
+Inductive errors_arg := ErrNum | ErrStr (s : string).     (* errors=<a number such as DATA_LOST> / errors='...' *)
+Inductive getter_sel := GDefault | GPlaceholder (dryrun : bool) | GGet | GValueError | GUnknown.
+Definition sel_test (t : string) (a : errors_arg) : option bool :=
+  if String.eqb t "errors in ('placeholder', 'dryrun')" then
+    Some (match a with ErrStr s => String.eqb s "placeholder" || String.eqb s "dryrun" | ErrNum => false end)
+  else if String.eqb t "errors == 'raise'" then
+    Some (match a with ErrStr s => String.eqb s "raise" | ErrNum => false end)
+  else if String.eqb t "isinstance(errors, str)" then
+    Some (match a with ErrStr _ => true | ErrNum => false end)
+  else if String.eqb t "else" then Some true
+  else None.
+Definition kwarg (key : string) : option string :=
+  match find (fun kv => String.eqb (fst kv) key) c08_getter_kwargs with Some kv => Some (snd kv) | None => None end.
+(* getter_kwargs['dryrun'] = errors == 'dryrun' *)
+Definition dryrun_of (a : errors_arg) : option bool :=
+  match kwarg "dryrun" with
+  | Some e => if String.eqb e "errors == 'dryrun'"
+              then Some (match a with ErrStr s => String.eqb s "dryrun" | ErrNum => false end) else None
+  | None => None
   end.
+(* getter_kwargs['default_value'] = errors: the fill value IS the errors argument *)
+Definition default_is_errors : bool :=
+  match kwarg "default_value" with Some e => String.eqb e "errors" | None => false end.
+Definition getter_of_name (n : string) (a : errors_arg) : getter_sel :=
+  if String.eqb n "self.get_chunk_or_placeholder" then
+    (if String.eqb c08_placeholder_reads_unless "dryrun"
+     then match dryrun_of a with Some d => GPlaceholder d | None => GUnknown end else GUnknown)
+  else if String.eqb n "self.get_chunk" then GGet
+  else if String.eqb n "self.get_chunk_or_default" then (if default_is_errors then GDefault else GUnknown)
+  else if String.eqb n "raise" then GValueError
+  else GUnknown.
+Fixpoint select_getter (rows : list (string * string)) (a : errors_arg) : getter_sel :=
+  match rows with
+  | [] => GUnknown
+  | (t, g) :: r =>
+    match sel_test t a with
+    | Some true => getter_of_name g a
+    | Some false => select_getter r a
+    | None => GUnknown
+    end
+  end.
+Definition get_dask_array_getter (a : errors_arg) : getter_sel := select_getter c08_getter_selection a.
+
+(* errors = DATA_LOST if array == 'flags' else 'placeholder'  (c08_vfw_errors = (name in the then-branch, string
+   constant of the else-branch)); DATA_LOST is a number *)
+Definition vfw_errors_arg (k : akind) : errors_arg :=
+  match k with
+  | AFlags => if String.eqb (fst c08_vfw_errors) "DATA_LOST" then ErrNum else ErrStr (fst c08_vfw_errors)
+  | AOther => ErrStr (snd c08_vfw_errors)
+  end.
+Definition run_getter (g : getter_sel) (s : store) (lo : lowres) : outcome chunkval :=
+  match g with
+  | GDefault => get_chunk_or_default s lo
+  | GPlaceholder false => get_chunk_or_placeholder s lo
+  | GPlaceholder true => Ret Placeholder                   (* dryrun: the store is never read *)
+  | GGet => get_chunk s lo
+  | GValueError | GUnknown => Raise B_ValueError
+  end.
+Definition vfw_getter (k : akind) : store -> lowres -> outcome chunkval :=
+  run_getter (get_dask_array_getter (vfw_errors_arg k)).
 Definition is_filler (v : chunkval) : bool := match v with Stored => false | _ => true end.
 (* result: per array "data_lost is set on the cell", or the first exception *)
 Fixpoint vfw_load (s : store) (arrays : list (akind * lowres)) : outcome (list bool) :=
